@@ -3,6 +3,7 @@
 From Coq Require Import List NArith Bool Permutation.
 From SV Require Import Fmt.VpkDir Fmt.VpkDirProofs Fmt.VpkName Fmt.VpkNameSplit Fmt.VpkNameProofs SM.Vpk SM.VpkProofs.
 From SV Require Import Fmt.VpkArchName Fmt.VpkArchNameProofs SM.VpkRefine Fmt.VpkDirV2.
+From SV Require Import Fmt.VpkNameJoin Fmt.VpkNameJoinProofs.
 From SV Require Import Fmt.VpkNullStr Fmt.VpkNullStrProofs SM.VpkNested SM.VpkNestedProofs SM.VpkApi SM.VpkApiProofs SM.VpkNestedMap SM.VpkNestedMapProofs SM.VpkNestedSim SM.VpkNestedWf SM.VpkPlace SM.VpkPlaceProofs.
 Import ListNotations.
 Open Scope N_scope.
@@ -443,3 +444,66 @@ Theorem c13_read_tables_computed :
   /\ read_table_ok [mkRRow false false RArch ROther; mkRRow false true RFooter RFooter; mkRRow true false RNone RNone; mkRRow true true RNone RNone] = false
   /\ read_table_ok [mkRRow false false RArch RArch] = false.
 Proof. exact read_tables_computed. Qed.
+
+(** ---- the two name helpers as read from the source (Fmt/VpkNameJoin.v; Gen/VpkNames_gen.v g_join_table / g_parts) ---- *)
+
+(** Every table obtained by executing _join_file_parts on symbolic strings (eight combinations of empty / non-empty folder, stem,
+    extension) that is accepted by [join_table_ok] (instance obligation) is [join_parts] of the model on every key: folder and '/' when
+    there is a folder, the stem, '.' and the extension when there is an extension. *)
+Theorem c13_join_table_is_model : forall tb, join_table_ok tb = true -> forall k, join_k tb k = Some (join_parts k).
+Proof. exact join_table_ok_is_join_parts. Qed.
+
+(** Every description of _get_file_parts (sources of folder / file name / extension for the three name forms, split statement reached,
+    chain of operations on the folder, order of the result) accepted by [gparts_ok] (instance obligation) is [file_parts_k] of the model
+    for every normpath, every split statement and every name form. *)
+Theorem c13_get_parts_description_is_model : forall g, gparts_ok g = true -> forall normpath k f,
+  file_parts_g normpath k g f = file_parts_k normpath k f.
+Proof. exact gparts_ok_is_file_parts. Qed.
+
+(** _get_file_parts o _join_file_parts = id on the keys that can be listed: the name filenames() / FileInfo.filename show for an entry
+    resolves back to that entry, for every os.path.normpath.  [key_listable]: the folder is in the form _get_file_parts returns, stem and
+    extension contain no '/', the extension no '.', and (the carve-out, exactly the known finding name-trailing-dot) a stem containing
+    '.' has an extension. *)
+Theorem c13_listed_name_resolves : forall normpath k, key_listable normpath k -> file_parts normpath (NStr (join_parts k)) = k.
+Proof. exact parts_of_join. Qed.
+
+(** The same about the generated objects of both helpers and the translated split statement. *)
+Theorem c13_generated_listed_name_resolves : forall normpath sk g tb,
+  split_kind_ok sk = true -> gparts_ok g = true -> join_table_ok tb = true ->
+  forall k, key_listable normpath k -> exists s, join_k tb k = Some s /\ file_parts_g normpath sk g (NStr s) = k.
+Proof. exact generated_parts_of_join. Qed.
+
+(** _join_file_parts o _get_file_parts = id on names in the listed form (folder as _get_file_parts returns it, one '/', the file name)
+    whose file name does not end in '.'. *)
+Theorem c13_join_of_parts : forall normpath s h t, split_path s = (h, t) -> norm_dir normpath h = h ->
+  s = h ++ (match h with [] => [] | _ => [47] end) ++ t -> (forall a, rsplit1 46 t <> Some (a, [])) ->
+  join_parts (file_parts normpath (NStr s)) = s.
+Proof. exact join_of_parts. Qed.
+
+(** The pinned table is accepted; the table of seeded fault c13_5 ('/'.join(filter(None, (path, filename))): the separator is dropped
+    with a blank stem) is rejected, and lists the dot-file ('a', '', 't') as 'a.t', which resolves to ('', 'a', 't'). *)
+Theorem c13_join_tables_computed :
+  join_table_ok join_table_pinned = true /\ join_table_ok join_table_c13_5 = false /\ join_table_ok [] = false
+  /\ join_k join_table_c13_5 ([116], [97], []) = Some [97; 46; 116]
+  /\ join_parts ([116], [97], []) = [97; 47; 46; 116]
+  /\ file_parts posix_normpath (NStr [97; 46; 116]) = ([116], [], [97]).
+Proof. exact join_tables_computed. Qed.
+
+Theorem c13_get_parts_descriptions_computed :
+  gparts_ok gparts_pinned = true /\ gparts_ok gparts_triple_ext_dropped = false
+  /\ file_parts_g posix_normpath (SplitLast 46) gparts_triple_ext_dropped (NTriple [97] [98] [116]) = ([], [97], [98]).
+Proof. exact gparts_computed. Qed.
+
+(** The carve-out is exact: 'a/b.c.' is stored as (ext '', stem 'b.c'), listed as 'a/b.c', which resolves to (ext 'c', stem 'b'). *)
+Theorem c13_listed_name_trailing_dot_refuted :
+  file_parts posix_normpath (NStr [97; 47; 98; 46; 99; 46]) = ([], [97], [98; 46; 99])
+  /\ join_parts ([], [97], [98; 46; 99]) = [97; 47; 98; 46; 99]
+  /\ file_parts posix_normpath (NStr [97; 47; 98; 46; 99]) = ([99], [97], [98])
+  /\ jhas 46 [98; 46; 99] = true.
+Proof. exact parts_of_join_trailing_dot_refuted. Qed.
+
+(** Non-vacuity: 'a/b.txt', the dot-file 'cfg/.g' in a sub-folder and '' are listable. *)
+Theorem c13_key_listable_examples :
+  key_listable posix_normpath ([116; 120; 116], [97], [98]) /\ key_listable posix_normpath ([103], [99; 102; 103], [])
+  /\ key_listable posix_normpath ([], [], []).
+Proof. exact key_listable_examples. Qed.
